@@ -708,7 +708,7 @@ def _h_argmax(a, axis=None, **kw):
                 b = i
         return b
     res = _axis_apply(f, a, axis)
-    return res if not isinstance(res, np.ndarray) else res.astype(int)
+    return np.int64(res) if not isinstance(res, np.ndarray) else res.astype(np.int64)
 
 
 def _h_argmin(a, axis=None, **kw):
@@ -719,7 +719,7 @@ def _h_argmin(a, axis=None, **kw):
                 b = i
         return b
     res = _axis_apply(f, a, axis)
-    return res if not isinstance(res, np.ndarray) else res.astype(int)
+    return np.int64(res) if not isinstance(res, np.ndarray) else res.astype(np.int64)
 
 
 def _h_linalg_norm(x, ord=None, axis=None, keepdims=False):
